@@ -114,38 +114,52 @@ End Selmap.
 (* ---------- the input is read only at the keys of the filtered members ---------- *)
 Section WithConv.
 Variable conv : string -> pv -> pv.
+Variable nba st : bool.
 
 Lemma field_block_ext : forall m d d',
-  lookup (m_name m) d = lookup (m_name m) d' -> field_block conv m d = field_block conv m d'.
+  rd nba m d = rd nba m d' -> field_block conv nba m d = field_block conv nba m d'.
 Proof. intros m d d' H. unfold field_block. now rewrite H. Qed.
 
 Lemma plan_ext : forall L mk ik d d',
-  (forall m, In m L -> filtered m = true -> lookup (m_name m) d = lookup (m_name m) d') ->
-  plan conv L mk ik d = plan conv L mk ik d'.
+  (forall m, In m L -> filtered m = true -> rd nba m d = rd nba m d') ->
+  plan conv nba st L mk ik d = plan conv nba st L mk ik d'.
 Proof.
   induction L as [|m r IH]; intros mk ik d d' H; [reflexivity|].
   cbn [plan]. destruct (filtered m) eqn:Ef.
   - rewrite (field_block_ext m d d') by (apply H; [now left|assumption]).
-    destruct (field_block conv m d'); try reflexivity;
+    destruct (field_block conv nba m d'); try reflexivity;
       erewrite IH; try reflexivity; intros; apply H; auto; now right.
   - erewrite IH; [reflexivity|]. intros; apply H; auto; now right.
 Qed.
 
 Theorem decode_ext : forall L d d' c,
-  (forall m, In m L -> filtered m = true -> lookup (m_name m) d = lookup (m_name m) d') ->
-  decode conv L d c = decode conv L d' c.
+  (forall m, In m L -> filtered m = true -> rd nba m d = rd nba m d') ->
+  decode conv nba st L d c = decode conv nba st L d' c.
 Proof. intros L d d' c H. unfold decode. now rewrite (plan_ext L false false d d' H). Qed.
 
-(* adding (or changing) a key named like a member that is not a hinted init field
-   does not change the result *)
-Corollary noninit_unread : forall L d c m0 v,
-  NoDup (map m_name L) -> In m0 L -> filtered m0 = false ->
-  decode conv L ((m_name m0, v) :: d) c = decode conv L d c.
+Lemma rd_cons_other : forall m k v d, ~ In k (keys_of nba m) -> rd nba m ((k, v) :: d) = rd nba m d.
 Proof.
-  intros L d c m0 v Hn Hi Hf. apply decode_ext. intros m Hm Hfm. cbn.
-  destruct (String.eqb (m_name m) (m_name m0)) eqn:E; [|reflexivity].
-  apply String.eqb_eq in E.
-  assert (m = m0) by (eapply key_inj; eauto). subst. congruence.
+  intros m k v d H. unfold rd, keys_of in *. cbn [lookup].
+  destruct (m_alias m) as [a|].
+  - destruct nba.
+    + assert (Ha: String.eqb a k = false) by (apply String.eqb_neq; intro; subst; apply H; now left).
+      assert (Hn: String.eqb (m_name m) k = false)
+        by (apply String.eqb_neq; intro He; apply H; right; left; now symmetry).
+      now rewrite Ha, Hn.
+    + assert (Ha: String.eqb a k = false) by (apply String.eqb_neq; intro; subst; apply H; now left).
+      now rewrite Ha.
+  - assert (Hn: String.eqb (m_name m) k = false)
+      by (apply String.eqb_neq; intro He; apply H; left; now symmetry).
+    now rewrite Hn.
+Qed.
+
+(* a key that no hinted init field reads (in particular the name of a ClassVar, InitVar, KW_ONLY marker or
+   init=False member, unless it is some field's alias) does not change the result *)
+Corollary noninit_unread : forall L d c k v,
+  (forall m, In m L -> filtered m = true -> ~ In k (keys_of nba m)) ->
+  decode conv nba st L ((k, v) :: d) c = decode conv nba st L d c.
+Proof.
+  intros L d c k v H. apply decode_ext. intros m Hm Hfm. apply rd_cons_other. now apply H.
 Qed.
 
 End WithConv.
@@ -227,29 +241,30 @@ Ltac flags := rewrite ?orb_true_r, ?orb_false_r; try reflexivity; try assumption
 
 Section Main.
 Variable conv : string -> pv -> pv.
+Variable nba st : bool.
 
 Lemma fb_nodefault : forall m d, has_dflt (seen_default m) = false ->
-  field_block conv m d = FbMissing \/ exists v, field_block conv m d = FbSet v.
+  field_block conv nba m d = FbMissing \/ exists v, field_block conv nba m d = FbSet v.
 Proof.
   intros m d H. unfold field_block. rewrite H. cbn.
-  destruct (lookup (m_name m) d); [right|left; reflexivity].
+  destruct (rd nba m d) as [p|]; [right|left; reflexivity].
   destruct (m_ident m); [eauto|]. destruct (nullable m && is_none p); eauto.
 Qed.
 
 (* ---------- structure of the plan ---------- *)
-Lemma plan_members : forall L mk ik d pl, plan conv L mk ik d = inr pl ->
+Lemma plan_members : forall L mk ik d pl, plan conv nba st L mk ik d = inr pl ->
   map (fun t: trip => fst (fst t)) pl = L.
 Proof.
   induction L as [|m r IH]; intros mk ik d pl H; cbn in H.
   - inversion H. reflexivity.
   - destruct (filtered m).
-    + destruct (field_block conv m d); try discriminate;
-      match type of H with context [plan conv r ?a ?b d] => destruct (plan conv r a b d) eqn:E end;
+    + destruct (field_block conv nba m d); try discriminate;
+      match type of H with context [plan conv nba st r ?a ?b d] => destruct (plan conv nba st r a b d) eqn:E end;
       try discriminate; inversion H; subst; cbn; f_equal; eapply IH; eauto.
-    + destruct (plan conv r mk ik d) eqn:E; try discriminate. inversion H; subst. cbn. f_equal. eapply IH; eauto.
+    + destruct (plan conv nba st r mk ik d) eqn:E; try discriminate. inversion H; subst. cbn. f_equal. eapply IH; eauto.
 Qed.
 
-Lemma plan_tnames : forall L mk ik d pl, plan conv L mk ik d = inr pl -> map tname pl = map m_name L.
+Lemma plan_tnames : forall L mk ik d pl, plan conv nba st L mk ik d = inr pl -> map tname pl = map m_name L.
 Proof.
   intros L mk ik d pl H. rewrite <- (plan_members L mk ik d pl H) at 1.
   rewrite map_map. apply map_ext. intros [[m p] f]. reflexivity.
@@ -259,42 +274,42 @@ Qed.
 Definition entry_ok (d: inp) (t: trip) : Prop :=
   match t with (m, p, f) =>
     (filtered m = false /\ p = PSkip /\ f = FbSkip) \/
-    (filtered m = true /\ f = field_block conv m d /\ f <> FbMissing /\
+    (filtered m = true /\ f = field_block conv nba m d /\ f <> FbMissing /\
      (if has_dflt (seen_default m) then p = PKwargs else (p = PPos \/ p = PKw)))
   end.
 
-Lemma plan_entries : forall L mk ik d pl, plan conv L mk ik d = inr pl -> Forall (entry_ok d) pl.
+Lemma plan_entries : forall L mk ik d pl, plan conv nba st L mk ik d = inr pl -> Forall (entry_ok d) pl.
 Proof.
   induction L as [|m r IH]; intros mk ik d pl H; cbn in H.
   - inversion H. constructor.
   - destruct (filtered m) eqn:Ef.
-    + destruct (field_block conv m d) eqn:Eb; try discriminate;
-      match type of H with context [plan conv r ?a ?b d] => destruct (plan conv r a b d) eqn:E end;
+    + destruct (field_block conv nba m d) eqn:Eb; try discriminate;
+      match type of H with context [plan conv nba st r ?a ?b d] => destruct (plan conv nba st r a b d) eqn:E end;
       try discriminate; inversion H; subst; (constructor; [|eapply IH; eauto]);
       cbn; right; rewrite Eb; (repeat split; auto; try discriminate);
       destruct (has_dflt (seen_default m)); auto;
       match goal with |- context [if ?c then PKw else PPos] => destruct c; auto end.
-    + destruct (plan conv r mk ik d) eqn:E; try discriminate. inversion H; subst.
+    + destruct (plan conv nba st r mk ik d) eqn:E; try discriminate. inversion H; subst.
       constructor; [|eapply IH; eauto]. cbn. left. auto.
 Qed.
 
 (* ---------- the positional arguments are a prefix of __init__'s positional parameters ---------- *)
-Lemma plan_cons_inv : forall m r mk ik d pl, plan conv (m :: r) mk ik d = inr pl ->
-  (filtered m = false /\ exists l, plan conv r mk ik d = inr l /\ pl = (m, PSkip, FbSkip) :: l) \/
+Lemma plan_cons_inv : forall m r mk ik d pl, plan conv nba st (m :: r) mk ik d = inr pl ->
+  (filtered m = false /\ exists l, plan conv nba st r mk ik d = inr l /\ pl = (m, PSkip, FbSkip) :: l) \/
   (filtered m = true /\ exists x l,
-      field_block conv m d = x /\ x <> FbMissing /\
-      plan conv r (mk || match seen_kw m with None => true | Some _ => false end)
-                  (has_dflt (seen_default m) || ik) d = inr l /\
+      field_block conv nba m d = x /\ x <> FbMissing /\
+      plan conv nba st r (mk || match seen_kw m with None => true | Some _ => false end)
+                  (st && (has_dflt (seen_default m) || ik)) d = inr l /\
       pl = (m, (if has_dflt (seen_default m) then PKwargs
                 else if (mk || match seen_kw m with Some b => b | None => true end) || ik
                      then PKw else PPos), x) :: l).
 Proof.
   intros m r mk ik d pl H. cbn in H. destruct (filtered m).
   - right. split; [reflexivity|].
-    destruct (field_block conv m d) eqn:Eb; try discriminate;
-    match type of H with context [plan conv r ?a ?b d] => destruct (plan conv r a b d) eqn:E end;
+    destruct (field_block conv nba m d) eqn:Eb; try discriminate;
+    match type of H with context [plan conv nba st r ?a ?b d] => destruct (plan conv nba st r a b d) eqn:E end;
     try discriminate; inversion H; subst; eexists; eexists; repeat split; try discriminate; eauto.
-  - left. split; [reflexivity|]. destruct (plan conv r mk ik d); try discriminate.
+  - left. split; [reflexivity|]. destruct (plan conv nba st r mk ik d); try discriminate.
     inversion H. eauto.
 Qed.
 
@@ -305,14 +320,20 @@ Proof. reflexivity. Qed.
 
 
 
+Lemma plan_ik_cong : forall L mk a b d, a = b ->
+  plan conv nba st L mk a d = plan conv nba st L mk b d.
+Proof. intros L mk a b d ->. reflexivity. Qed.
+
 Lemma no_pos : forall L mk ik sd d (pl: list trip),
   forallb view_okm L = true -> forallb kind_ok L = true -> pos_ok sd L = true ->
-  mk || ik || sd = true -> plan conv L mk ik d = inr pl ->
+  (st = false -> ik = false) ->
+  mk || ik || sd = true -> plan conv nba st L mk ik d = inr pl ->
   selmap tname sel_pos pl = [].
 Proof.
-  induction L as [|m r IH]; intros mk ik sd d pl Hv Hk Hp Hfl H.
+  induction L as [|m r IH]; intros mk ik sd d pl Hv Hk Hp Hinv Hfl H.
   - cbn in H. inversion H. reflexivity.
   - cbn in Hv, Hk, Hp. band.
+    assert (Hsi: st && ik = ik) by (destruct st; [reflexivity | now rewrite Hinv]).
     destruct (plan_cons_inv m r mk ik d pl H) as [[Ef [l [E ->]]] | [Ef [x [l [Eb [Hx [E ->]]]]]]];
       rewrite selmap_cons.
     + cbn [sel_pos app]. destruct (is_posparam m) eqn:Epp.
@@ -322,12 +343,15 @@ Proof.
     + destruct (view_filtered m) as [Hkind [Hfld [Hpar [Hd [Hn Hkw]]]]]; try assumption.
       unfold is_posparam in Hp. rewrite Hpar, <- Hd in Hp. cbn [andb] in Hp.
       destruct (has_dflt (seen_default m)) eqn:Edf.
-      * cbn [sel_pos app]. cbn [orb] in E.
+      * cbn [sel_pos app]. cbn [orb] in E. rewrite andb_true_r in E.
+        assert (Hst: st = false -> st = false) by auto.
         destruct (m_kw m); cbn [negb] in Hp.
-        -- eapply (IH _ true sd); try eassumption. flags.
-        -- eapply (IH _ true true); try eassumption. flags.
+        -- eapply (IH _ st sd); try eassumption.
+           destruct st; [flags|]. rewrite (Hinv eq_refl) in Hfl. rewrite orb_false_r in *.
+           apply orb_true_iff in Hfl. destruct Hfl as [->| ->]; flags.
+        -- eapply (IH _ st true); try eassumption. flags.
       * destruct (fb_nodefault m d Edf) as [Hm|[v Hs]]; [congruence|]. rewrite Hs in Eb. subst x.
-        cbn [orb] in E.
+        cbn [orb] in E. rewrite Hsi in E.
         destruct (seen_kw m) as [b|] eqn:Ekw.
         -- specialize (Hkw b eq_refl). subst b.
            destruct (m_kw m) eqn:Emk; cbn [negb] in Hp.
@@ -343,7 +367,7 @@ Qed.
 
 Lemma pos_prefix : forall L d (pl: list trip),
   forallb view_okm L = true -> forallb kind_ok L = true -> pos_ok false L = true ->
-  plan conv L false false d = inr pl ->
+  plan conv nba st L false false d = inr pl ->
   exists k, map fst (selmap tname sel_pos pl) = firstn k (map m_name (pos_params L)).
 Proof.
   induction L as [|m r IH]; intros d pl Hv Hk Hp H.
@@ -354,20 +378,29 @@ Proof.
       rewrite selmap_cons.
     + cbn [sel_pos app]. destruct (is_posparam m) eqn:Epp.
       * rewrite (unfiltered_posparam m) in Hp by assumption.
-        assert (Hz: selmap tname sel_pos l = []) by (eapply (no_pos r false false true d l); try eassumption; flags); rewrite Hz.
+        assert (Hz: selmap tname sel_pos l = []) by (eapply (no_pos r false false true d l); try eassumption; flags; auto); rewrite Hz.
         exists 0. reflexivity.
       * eapply IH; eassumption.
     + destruct (view_filtered m) as [Hkind [Hfld [Hpar [Hd [Hn Hkw]]]]]; try assumption.
       unfold is_posparam in *. rewrite Hpar, <- Hd in *. cbn [andb] in *.
       destruct (has_dflt (seen_default m)) eqn:Edf.
-      * cbn [sel_pos app]. cbn [orb] in E.
-        destruct (m_kw m); cbn [negb] in *.
-        -- assert (Hz: selmap tname sel_pos l = []) by (eapply (no_pos r _ true false d l); try eassumption; flags); rewrite Hz.
-           exists 0. reflexivity.
-        -- assert (Hz: selmap tname sel_pos l = []) by (eapply (no_pos r _ true true d l); try eassumption; flags); rewrite Hz.
+      * cbn [sel_pos app]. cbn [orb] in E. rewrite andb_true_r in E.
+        destruct (m_kw m) eqn:Emk; cbn [negb] in *.
+        -- (* keyword-only with default *)
+           assert (Hst: st = true \/ st = false) by (destruct st; auto). destruct Hst as [Est|Est].
+           ++ assert (Hz: selmap tname sel_pos l = [])
+                by (eapply (no_pos r _ st false d l); try eassumption; auto; rewrite Est; flags).
+              rewrite Hz. exists 0. reflexivity.
+           ++ rewrite (plan_ik_cong r _ st false d Est) in E.
+              destruct (seen_kw m) as [b|] eqn:Ekw; cbn [orb] in E.
+              ** eapply IH; eassumption.
+              ** assert (Hz: selmap tname sel_pos l = [])
+                   by (eapply (no_pos r true false false d l); try eassumption; flags; auto).
+                 rewrite Hz. exists 0. reflexivity.
+        -- assert (Hz: selmap tname sel_pos l = []) by (eapply (no_pos r _ st true d l); try eassumption; flags; auto); rewrite Hz.
            exists 0. reflexivity.
       * destruct (fb_nodefault m d Edf) as [Hm|[v Hs]]; [congruence|]. rewrite Hs in Eb. subst x.
-        cbn [orb] in E.
+        cbn [orb] in E. rewrite andb_false_r in E.
         destruct (seen_kw m) as [b|] eqn:Ekw.
         -- specialize (Hkw b eq_refl). subst b.
            destruct (m_kw m) eqn:Emk; cbn [negb orb] in *.
@@ -376,7 +409,7 @@ Proof.
               exists (S k). cbn. now rewrite Hk'.
         -- cbn [orb sel_pos app].
            destruct (m_kw m); cbn [negb] in Hp; band;
-             assert (Hz: selmap tname sel_pos l = []) by (eapply (no_pos r true false false d l); try eassumption; flags); rewrite Hz;
+             (assert (Hz: selmap tname sel_pos l = []) by (eapply (no_pos r true false false d l); try eassumption; flags; auto); rewrite Hz);
              exists 0; reflexivity.
 Qed.
 
@@ -385,11 +418,12 @@ End Main.
 (* ---------- MissingField: the first required key that is absent ---------- *)
 Section Main2.
 Variable conv : string -> pv -> pv.
+Variable nba st : bool.
 
 Lemma plan_missing : forall L mk ik d, forallb view_okm L = true ->
-  match plan conv L mk ik d with
-  | inl f => first_missing L d = Some f
-  | inr _ => first_missing L d = None
+  match plan conv nba st L mk ik d with
+  | inl f => first_missing nba L d = Some f
+  | inr _ => first_missing nba L d = None
   end.
 Proof.
   induction L as [|m r IH]; intros mk ik d Hv; [reflexivity|].
@@ -398,21 +432,21 @@ Proof.
   - destruct (view_filtered m) as [Hkind [Hfld [Hpar [Hd [Hn Hkw]]]]]; try assumption.
     unfold required, hinted. rewrite Hkind, Hfld, Hpar, <- Hd. cbn [andb].
     unfold field_block, has_key.
-    destruct (lookup (m_name m) d) as [v|] eqn:El.
-    + rewrite andb_false_r.
-      match goal with |- context [plan conv r ?a ?b d] => specialize (IH a b d H0); destruct (plan conv r a b d) end;
+    destruct (rd nba m d) as [v|] eqn:El.
+    + cbn [negb]. rewrite andb_false_r.
+      match goal with |- context [plan conv nba st r ?a ?b d] => specialize (IH a b d H0); destruct (plan conv nba st r a b d) end;
       destruct (m_ident m); try exact IH;
       destruct (nullable m && is_none v); try exact IH;
       destruct (has_dflt (seen_default m) && dflt_is_none (seen_default m)); exact IH.
     + destruct (has_dflt (seen_default m)); cbn [negb andb]; [|reflexivity].
-      match goal with |- context [plan conv r ?a ?b d] => specialize (IH a b d H0); destruct (plan conv r a b d) end;
+      match goal with |- context [plan conv nba st r ?a ?b d] => specialize (IH a b d H0); destruct (plan conv nba st r a b d) end;
       exact IH.
   - assert (Hr: required m = false).
     { unfold required. unfold filtered in Ef. destruct (hinted m) eqn:Eh; [|reflexivity].
       cbn in Ef. unfold hinted in Eh. destruct (m_kind m) eqn:Ek; try discriminate.
       rewrite (view_unfiltered_normal m) by (auto; unfold filtered, hinted; rewrite Ek; exact Ef).
       now rewrite andb_false_r. }
-    rewrite Hr. cbn [andb]. specialize (IH mk ik d H0). destruct (plan conv r mk ik d); exact IH.
+    rewrite Hr. cbn [andb]. specialize (IH mk ik d H0). destruct (plan conv nba st r mk ik d); exact IH.
 Qed.
 
 (* ---------- the call binds ---------- *)
@@ -436,21 +470,21 @@ Proof.
     + eapply (selmap_disjoint _ tname sel_pos sel_kwargs); eauto using sel_disj_pos_kwargs.
 Qed.
 
-Lemma entry_in : forall (pl: list trip) d t, Forall (entry_ok conv d) pl -> In t pl -> entry_ok conv d t.
+Lemma entry_in : forall (pl: list trip) d t, Forall (entry_ok conv nba d) pl -> In t pl -> entry_ok conv nba d t.
 Proof. intros pl d t H Hi. rewrite Forall_forall in H. auto. Qed.
 
 Lemma bind_ok : forall L d (pl: list trip),
-  layout_ok L = true -> view_ok L = true -> plan conv L false false d = inr pl ->
+  layout_ok L = true -> view_ok L = true -> plan conv nba st L false false d = inr pl ->
   bind L (pos_of pl) (kws_of pl ++ kwargs_of pl) = Some (passed pl).
 Proof.
   intros L d pl Hl Hv H. unfold layout_ok in Hl.
   apply andb_true_iff in Hl. destruct Hl as [Hl Hpos].
   apply andb_true_iff in Hl. destruct Hl as [Hnd Hkind].
   apply nodupb_NoDup in Hnd.
-  assert (Htn := plan_tnames conv L false false d pl H).
-  assert (Hent := plan_entries conv L false false d pl H).
-  assert (Hmem := plan_members conv L false false d pl H).
-  destruct (pos_prefix conv L d pl Hv Hkind Hpos H) as [k Hk].
+  assert (Htn := plan_tnames conv nba st L false false d pl H).
+  assert (Hent := plan_entries conv nba st L false false d pl H).
+  assert (Hmem := plan_members conv nba st L false false d pl H).
+  destruct (pos_prefix conv nba st L d pl Hv Hkind Hpos H) as [k Hk].
   unfold bind, pos_of, kws_of, kwargs_of.
   set (X := selmap tname sel_pos pl) in *.
   assert (Hlen: List.length (map snd X) = List.length (firstn k (map m_name (pos_params L)))).
@@ -500,24 +534,24 @@ Proof.
 Qed.
 
 Lemma ref_bound_lookup : forall L d m, NoDup (map m_name L) -> In m L ->
-  lookup (m_name m) (ref_bound conv L d) = ref_sel conv d m.
+  lookup (m_name m) (ref_bound conv nba L d) = ref_sel conv nba d m.
 Proof. intros. unfold ref_bound. now apply lookup_selmap. Qed.
 
 (* ---------- the binding theorem ---------- *)
 Theorem decode_ref : forall L d c,
-  layout_ok L = true -> view_ok L = true -> decode conv L d c = ref_decode conv L d c.
+  layout_ok L = true -> view_ok L = true -> decode conv nba st L d c = ref_decode conv nba L d c.
 Proof.
   intros L d c Hl Hv. unfold decode, ref_decode.
   assert (Hm := plan_missing L false false d Hv).
-  destruct (plan conv L false false d) as [f|pl] eqn:Ep; rewrite Hm; [reflexivity|].
+  destruct (plan conv nba st L false false d) as [f|pl] eqn:Ep; rewrite Hm; [reflexivity|].
   rewrite (bind_ok L d pl Hl Hv Ep).
   assert (Hnd: NoDup (map m_name L)).
   { unfold layout_ok in Hl. apply andb_true_iff in Hl. destruct Hl as [Hl _].
     apply andb_true_iff in Hl. destruct Hl as [Hl _]. now apply nodupb_NoDup. }
-  assert (Htn := plan_tnames conv L false false d pl Ep).
-  assert (Hent := plan_entries conv L false false d pl Ep).
-  assert (Hmem := plan_members conv L false false d pl Ep).
-  rewrite (walk_ext (passed pl) (ref_bound conv L d) L c); [reflexivity|].
+  assert (Htn := plan_tnames conv nba st L false false d pl Ep).
+  assert (Hent := plan_entries conv nba st L false false d pl Ep).
+  assert (Hmem := plan_members conv nba st L false false d pl Ep).
+  rewrite (walk_ext (passed pl) (ref_bound conv nba L d) L c); [reflexivity|].
   intros m c0 Hin.
   (* the entry of m in the plan *)
   assert (Hex: exists p f, In (m, p, f) pl).
@@ -542,15 +576,22 @@ Proof.
     assert (Hlk': lookup (m_name m) (passed pl) = match f with FbSet v => Some v | _ => None end).
     { rewrite Hlk. destruct p; try congruence; reflexivity. }
     unfold step. rewrite Hlk', Hrb. unfold ref_sel, hinted. rewrite Hkind, Hfld, Hpar. cbn [andb].
-    assert (Hnm': field_block conv m d <> FbMissing) by (rewrite <- Hf; exact Hnm).
+    assert (Hnm': field_block conv nba m d <> FbMissing) by (rewrite <- Hf; exact Hnm).
     rewrite Hf. clear Hlk Hlk' Hf Hi Hnm. revert Hnm'.
-    unfold field_block, eff_conv, tnullable, nullable. rewrite Hn.
-    destruct (lookup (m_name m) d) as [v|] eqn:El.
+    unfold field_block, eff_conv, tnullable, nullable, uconv. rewrite Hn.
+    destruct (rd nba m d) as [v|] eqn:El.
     + intros _. destruct (m_ident m); [reflexivity|].
-      destruct ((m_nullty m || dflt_is_none (m_def m)) && is_none v) eqn:En; [|reflexivity].
-      destruct (has_dflt (seen_default m) && dflt_is_none (m_def m)) eqn:Es; [|reflexivity].
-      apply andb_true_iff in Es. destruct Es as [_ Es].
-      destruct (m_def m) as [|dv|]; try discriminate. destruct dv; try discriminate. reflexivity.
+      destruct (m_nullty m || dflt_is_none (m_def m)) eqn:Enl.
+      * assert (Hx: m_nullty m || m_unull m || dflt_is_none (m_def m) = true).
+        { destruct (m_nullty m), (m_unull m), (dflt_is_none (m_def m)); auto. }
+        rewrite Hx. cbn [andb]. destruct (is_none v) eqn:En; [|rewrite andb_false_r; reflexivity].
+        destruct (has_dflt (seen_default m) && dflt_is_none (m_def m)) eqn:Es; [|reflexivity].
+        apply andb_true_iff in Es. destruct Es as [_ Es].
+        destruct (m_def m) as [|dv|]; try discriminate. destruct dv; try discriminate. reflexivity.
+      * cbn [andb].
+        assert (Hx: m_nullty m || m_unull m || dflt_is_none (m_def m) = m_unull m).
+        { apply orb_false_iff in Enl. destruct Enl as [-> ->]. cbn. now rewrite orb_false_r. }
+        rewrite Hx. destruct (m_unull m && is_none v); reflexivity.
     + destruct (has_dflt (seen_default m)); [reflexivity|congruence].
 Qed.
 
@@ -559,6 +600,7 @@ End Main2.
 (* ---------- consequences spelled out per field ---------- *)
 Section Spelled.
 Variable conv : string -> pv -> pv.
+Variable nba st : bool.
 
 Lemma step_mono : forall b m c v c2, step b m c = Some (v, c2) -> c <= c2.
 Proof.
@@ -593,11 +635,11 @@ Proof.
     apply String.eqb_eq in E. exfalso. apply Hni. rewrite <- E. now apply in_map.
 Qed.
 
-Lemma first_missing_none : forall L d m, first_missing L d = None -> In m L ->
-  required m = true -> has_key (m_name m) d = true.
+Lemma first_missing_none : forall L d m, first_missing nba L d = None -> In m L ->
+  required m = true -> has_key nba m d = true.
 Proof.
   induction L as [|m0 r IH]; intros d m H Hi Hr; [contradiction|].
-  cbn in H. destruct (required m0 && negb (has_key (m_name m0) d)) eqn:E; try discriminate.
+  cbn in H. destruct (required m0 && negb (has_key nba m0 d)) eqn:E; try discriminate.
   destruct Hi as [->|Hi]; [|eauto].
   rewrite Hr in E. cbn in E. now apply negb_false_iff in E.
 Qed.
@@ -611,20 +653,20 @@ Proof.
 Qed.
 
 Lemma ref_step_total : forall L d m c,
-  NoDup (map m_name L) -> forallb kind_ok L = true -> first_missing L d = None -> In m L ->
-  step (ref_bound conv L d) m c <> None.
+  NoDup (map m_name L) -> forallb kind_ok L = true -> first_missing nba L d = None -> In m L ->
+  step (ref_bound conv nba L d) m c <> None.
 Proof.
   intros L d m c Hn Hk Hfm Hi. unfold step.
-  rewrite (ref_bound_lookup conv L d m Hn Hi). unfold ref_sel.
+  rewrite (ref_bound_lookup conv nba L d m Hn Hi). unfold ref_sel.
   rewrite forallb_forall in Hk. specialize (Hk m Hi). unfold kind_ok in Hk.
   destruct (m_kind m) eqn:Ek.
   - destruct (m_field m) eqn:Ef; [|discriminate].
     destruct (m_param m) eqn:Ep.
     + unfold hinted. rewrite Ek. cbn [andb].
-      destruct (m_def m) eqn:Ed; try (destruct (lookup (m_name m) d); discriminate).
+      destruct (m_def m) eqn:Ed; try (destruct (rd nba m d); discriminate).
       assert (Hr: required m = true) by (unfold required, hinted; rewrite Ek, Ef, Ep, Ed; reflexivity).
       assert (Hh := first_missing_none L d m Hfm Hi Hr). unfold has_key in Hh.
-      destruct (lookup (m_name m) d); discriminate.
+      destruct (rd nba m d); discriminate.
     + destruct (m_def m); discriminate.
   - unfold hinted. rewrite Ek. cbn [andb]. apply andb_true_iff in Hk. destruct Hk as [_ Hk].
     destruct (m_def m); discriminate.
@@ -633,10 +675,10 @@ Proof.
 Qed.
 
 Theorem binding : forall L d c,
-  layout_ok L = true -> view_ok L = true -> first_missing L d = None ->
-  exists a c', decode conv L d c = OOk a c' /\ c <= c' /\
+  layout_ok L = true -> view_ok L = true -> first_missing nba L d = None ->
+  exists a c', decode conv nba st L d c = OOk a c' /\ c <= c' /\
     forall m, In m L -> m_kind m = KNormal -> m_field m = true -> m_param m = true ->
-      match lookup (m_name m) d with
+      match rd nba m d with
       | Some v => attr_of (m_name m) a = Some (Some (eff_conv conv m v))
       | None =>
           match m_def m with
@@ -646,29 +688,29 @@ Theorem binding : forall L d c,
           end
       end.
 Proof.
-  intros L d c Hl Hv Hfm. rewrite (decode_ref conv L d c Hl Hv). unfold ref_decode. rewrite Hfm.
+  intros L d c Hl Hv Hfm. rewrite (decode_ref conv nba st L d c Hl Hv). unfold ref_decode. rewrite Hfm.
   assert (Hl' := Hl). unfold layout_ok in Hl'.
   apply andb_true_iff in Hl'. destruct Hl' as [Hl' _].
   apply andb_true_iff in Hl'. destruct Hl' as [Hnd Hkind]. apply nodupb_NoDup in Hnd.
-  destruct (walk_total (ref_bound conv L d) L c) as [a [c' Hw]].
+  destruct (walk_total (ref_bound conv nba L d) L c) as [a [c' Hw]].
   { intros m c0 Hi. now apply ref_step_total. }
   rewrite Hw. exists a, c'. split; [reflexivity|]. split; [eapply walk_mono; eauto|].
   intros m Hi Hk Hf Hp.
   destruct (walk_attr _ L c a c' m Hw Hnd Hi) as [c1 [c2 [v [H1 [H2 [Hs Ha]]]]]].
   unfold step in Hs. rewrite Hk, Hf, Hp in Hs.
-  rewrite (ref_bound_lookup conv L d m Hnd Hi) in Hs. unfold ref_sel, hinted in Hs.
+  rewrite (ref_bound_lookup conv nba L d m Hnd Hi) in Hs. unfold ref_sel, hinted in Hs.
   rewrite Hk, Hp in Hs. cbn [andb] in Hs.
-  destruct (lookup (m_name m) d) as [v0|].
+  destruct (rd nba m d) as [v0|].
   - inversion Hs; subst. exact Ha.
   - destruct (m_def m); inversion Hs; subst; try exact Ha.
     exists c1. split; [lia|exact Ha].
 Qed.
 
 Theorem missing : forall L d c f,
-  layout_ok L = true -> view_ok L = true -> first_missing L d = Some f ->
-  decode conv L d c = OMissing f.
+  layout_ok L = true -> view_ok L = true -> first_missing nba L d = Some f ->
+  decode conv nba st L d c = OMissing f.
 Proof.
-  intros L d c f Hl Hv Hfm. rewrite (decode_ref conv L d c Hl Hv). unfold ref_decode. now rewrite Hfm.
+  intros L d c f Hl Hv Hfm. rewrite (decode_ref conv nba st L d c Hl Hv). unfold ref_decode. now rewrite Hfm.
 Qed.
 
 Lemma eff_conv_null : forall m, (m_ident m = true \/ tnullable m = true) -> eff_conv conv m PNone = PNone.
@@ -678,10 +720,10 @@ Proof.
 Qed.
 
 Theorem null_wins : forall L d c m,
-  layout_ok L = true -> view_ok L = true -> first_missing L d = None ->
+  layout_ok L = true -> view_ok L = true -> first_missing nba L d = None ->
   In m L -> m_kind m = KNormal -> m_field m = true -> m_param m = true ->
-  tnullable m = true -> lookup (m_name m) d = Some PNone ->
-  exists a c', decode conv L d c = OOk a c' /\ attr_of (m_name m) a = Some (Some PNone).
+  tnullable m = true -> rd nba m d = Some PNone ->
+  exists a c', decode conv nba st L d c = OOk a c' /\ attr_of (m_name m) a = Some (Some PNone).
 Proof.
   intros L d c m Hl Hv Hfm Hi Hk Hf Hp Hn Hd.
   destruct (binding L d c Hl Hv Hfm) as [a [c' [Hdec [_ H]]]].
@@ -723,16 +765,23 @@ Proof.
     + cbn [app]. replace (c' - c) with (S (c' - S c)) by lia. reflexivity.
 Qed.
 
+Lemma rd_basic : forall m d v, input_basic d = true -> rd nba m d = Some v -> basic v = true.
+Proof.
+  intros m d v Hd H. unfold rd in H. unfold input_basic in Hd.
+  destruct (m_alias m) as [a|]; [destruct nba; [destruct (lookup a d) eqn:E; [inversion H; subst|]|]|];
+    eapply lookup_basic; eauto.
+Qed.
+
 Lemma ref_bound_basic : forall L d,
   (forall f v, basic (conv f v) = true) -> input_basic d = true ->
-  forallb (fun p => basic (snd p)) (ref_bound conv L d) = true.
+  forallb (fun p => basic (snd p)) (ref_bound conv nba L d) = true.
 Proof.
   intros L d Hc Hd. unfold ref_bound, selmap. induction L as [|m r IH]; [reflexivity|].
   cbn [flat_map]. rewrite forallb_app, IH, andb_true_r.
   unfold ref_sel. destruct (hinted m && m_param m); [|reflexivity].
-  destruct (lookup (m_name m) d) as [v|] eqn:El; [|reflexivity].
+  destruct (rd nba m d) as [v|] eqn:El; [|reflexivity].
   cbn. rewrite andb_true_r. unfold eff_conv.
-  destruct (m_ident m); [exact (lookup_basic (m_name m) d v Hd El)|].
+  destruct (m_ident m); [exact (rd_basic m d v Hd El)|].
   destruct (tnullable m && is_none v); [reflexivity|apply Hc].
 Qed.
 
@@ -740,15 +789,15 @@ Qed.
 Theorem fresh_labels : forall L d c a c',
   layout_ok L = true -> view_ok L = true ->
   (forall f v, basic (conv f v) = true) -> input_basic d = true -> defaults_basic L = true ->
-  decode conv L d c = OOk a c' -> c <= c' /\ labels a = seq c (c' - c).
+  decode conv nba st L d c = OOk a c' -> c <= c' /\ labels a = seq c (c' - c).
 Proof.
-  intros L d c a c' Hl Hv Hc Hd Hdb H. rewrite (decode_ref conv L d c Hl Hv) in H.
-  unfold ref_decode in H. destruct (first_missing L d); try discriminate.
-  destruct (walk (ref_bound conv L d) L c) as [[a0 c0]|] eqn:Ew; inversion H; subst.
+  intros L d c a c' Hl Hv Hc Hd Hdb H. rewrite (decode_ref conv nba st L d c Hl Hv) in H.
+  unfold ref_decode in H. destruct (first_missing nba L d); try discriminate.
+  destruct (walk (ref_bound conv nba L d) L c) as [[a0 c0]|] eqn:Ew; inversion H; subst.
   split; [eapply walk_mono; eauto|].
   unfold layout_ok in Hl. apply andb_true_iff in Hl. destruct Hl as [Hl _].
   apply andb_true_iff in Hl. destruct Hl as [_ Hk].
-  eapply (walk_labels (ref_bound conv L d)); eauto. now apply ref_bound_basic.
+  eapply (walk_labels (ref_bound conv nba L d)); eauto. now apply ref_bound_basic.
 Qed.
 
 (* two results never share a factory-made object *)
@@ -756,7 +805,7 @@ Theorem fresh_two : forall L d1 d2 c a1 c1 a2 c2,
   layout_ok L = true -> view_ok L = true ->
   (forall f v, basic (conv f v) = true) -> input_basic d1 = true -> input_basic d2 = true ->
   defaults_basic L = true ->
-  decode conv L d1 c = OOk a1 c1 -> decode conv L d2 c1 = OOk a2 c2 ->
+  decode conv nba st L d1 c = OOk a1 c1 -> decode conv nba st L d2 c1 = OOk a2 c2 ->
   NoDup (labels a1 ++ labels a2).
 Proof.
   intros L d1 d2 c a1 c1 a2 c2 Hl Hv Hc Hd1 Hd2 Hdb H1 H2.
@@ -783,7 +832,14 @@ Proof.
   rewrite !eqb_reflx. destruct (m_param m); reflexivity.
 Qed.
 
-Theorem decode_ref_post : forall conv L d c,
+Theorem decode_ref_post : forall conv nba st L d c,
   layout_ok L = true -> (forall m, In m L -> post_coherent m) ->
-  decode conv L d c = ref_decode conv L d c.
+  decode conv nba st L d c = ref_decode conv nba L d c.
 Proof. intros. apply decode_ref; auto using post_view_ok. Qed.
+
+(* the in_kwargs flag of the assembly loop need not be sticky: resetting it per block gives the same result
+   on every layout Python accepts (a positional parameter without default never follows one with default) *)
+Theorem sticky_irrelevant : forall conv nba L d c,
+  layout_ok L = true -> view_ok L = true ->
+  decode conv nba false L d c = decode conv nba true L d c.
+Proof. intros. now rewrite !decode_ref. Qed.
